@@ -190,7 +190,8 @@ CLAIMED["C20"] = dict(
          "every FormatFlags set of the tier x register mode (physical, named/unnamed virtual, virtual of another type) x label mode (anonymous, named, local under named/anonymous "
          "parent), by format_node of the Compiler's node, by format_operand and by the StringLogger (3 logger flag sets); the text is parsed back by a harness-owned grammar and "
          "compared with the request clause by clause (mnemonic, prefix, register name/size, memory size/segment/base/index/scale/disp, broadcast, imm, mask, zeroing, rounding, "
-         "label, shift, extend, cond, addressing mode, operand count); the machine-code column must equal the appended bytes; thorough: the text is re-assembled by GNU as / llvm-mc.",
+         "label, shift, extend, cond, addressing mode, operand count); the machine-code column must equal the appended bytes; thorough: the text is re-assembled by GNU as / llvm-mc. "
+         "Leg 2 (harness/c20_failmsg.cpp): the message handed to the ErrorHandler for every rejected instruction of a small full product (emitters x kinds x masks x options x comment) equals error name + Formatter text + comment.",
     note="Trusts the harness grammar and register tables; texts the external assembler rejects are inconclusive in the re-assembly leg; at most 1 deviation per case.",
     technique="exhaustive enumeration of database forms x single deviations x format flag sets on the implementation with a parse-back oracle and external assemblers as second oracle",
     design_ref="3/C20", engine="harness/c20_format.cpp")
